@@ -19,7 +19,8 @@ const c11Rule = "three harnesses. (a) Pedersen DistKeyGenerator level: n in 3..6
 	"{deal phase: absent, wrong share / corrupted ciphertext for chosen honest victims, share-holder index outside the group, wrong number of public coefficients, wrong nonce, duplicated bundle, two conflicting bundles; response phase: false complaint against an honest dealer, success in regular mode, unknown dealer, wrong nonce, absent, duplicated bundle; justification phase: none, wrong share, unknown holder, wrong nonce, duplicated bundle}; every honest node receives the same multiset of bundles in its own generated order; " +
 	"also resharing after an honest fresh DKG, to an identical / overlapping / disjoint / larger / smaller group with a new threshold and the same fault menu. (b) Pedersen Protocol driver with a harness Board and Phaser that hand exactly one packet or phase tick to one node at a time in a generated order, with forged-signature and equivocating packets. (c) Rabin DKG message passing with Byzantine dealers built from the public VSS API. " +
 	"Oracle on all honest nodes that complete: identical commitment polynomial and QUAL, each share on that polynomial with the node's index, any t shares reconstruct a secret matching the public key, fresh: key = sum of the constant commitments broadcast by QUAL dealers; resharing: key unchanged; a dealer with an unjustified invalid deal to an honest node, or with a malformed/duplicated/conflicting bundle, is not in QUAL; honest dealers are in QUAL; all honest => everybody completes. " +
-	"non-trivial = at least one Byzantine node, n > 3, or a resharing; distinct = distinct run text"
+	"non-trivial = at least one Byzantine node, n > 3, or a resharing; distinct = distinct run text" +
+	" Added after the sensitivity rounds: misdirected deal at any position of the bundle; after resharing every honest active new node must be in QUAL; the regular-mode-only Success response fault has triple weight."
 
 func TestC11_PedersenFresh(t *testing.T) {
 	ev := evFor("C11")
